@@ -417,7 +417,44 @@ def r02_5(ctx):
     ctx.floor('R02.5', 'functions of bspline_cy examined', n, 3)
 
 
+def r02_7(ctx):
+    """Every exit of the knot-span search returns a NON-EMPTY span [kv[r], kv[r+1]) containing u.  The bisection invariant
+    kv[a] <= u < kv[b] gives that for `return a` after the loop; an exit from INSIDE the loop (exact hit kv[c] == u) must first
+    skip the whole run of equal knots -- a loop `while kv[c+1] == u: c += 1`; a single `if kv[c+1] == u: c += 1` leaves an empty
+    span for multiplicity >= 3 (division by the zero span length in the kernel: NaN values)."""
+    fi = ctx.prog.func(CY + '.pyx_findspan')
+    wh = [s_ for s_ in fi.node.body if isinstance(s_, ast.While)]
+    if not wh:
+        ctx.undecided('R02.7', fi.qual, 'bisection loop', fi.node, 'not recognised')
+        return
+    inner = [r for r in ast.walk(wh[0]) if isinstance(r, ast.Return)]
+    if not inner:
+        ctx.met('R02.7', fi.qual, 'no exit from inside the bisection loop', wh[0], 'the only exits are the end test and the bisection result')
+        return
+    for r in inner:
+        blk = None
+        par = parent(r)
+        for fld in ('body', 'orelse'):
+            b = getattr(par, fld, None)
+            if isinstance(b, list) and r in b:
+                blk = b[:b.index(r)]
+        blk = blk or []
+        skip_loop = [s_ for s_ in blk if isinstance(s_, ast.While) and '+1]' in src(s_.test).replace(' ', '') and 'u' in src(s_.test)]
+        skip_once = [s_ for s_ in blk if isinstance(s_, ast.If) and '+1]' in src(s_.test).replace(' ', '') and 'u' in src(s_.test)
+                     and any(isinstance(x, ast.AugAssign) for x in ast.walk(s_))]
+        if skip_loop:
+            ctx.met('R02.7', fi.qual, src(r), r, 'the run of equal knots is skipped by a loop before the early exit')
+        elif skip_once:
+            ctx.violated('R02.7', fi.qual, '%s after `%s`' % (src(r), src(skip_once[0]).split('\n')[0]), r,
+                         'the early exit for an exact hit steps over ONE repeated knot only: for an interior knot of multiplicity >= 3 (degree >= 3) '
+                         'the returned span is empty, first_active_at is one too small and the evaluation kernel divides by the zero span length '
+                         '(active_ev / collocation return NaN at that point)')
+        else:
+            ctx.undecided('R02.7', fi.qual, src(r), r, 'exit from inside the bisection loop: non-emptiness of the returned span not established')
+
+
 def run(ctx):
+    r02_7(ctx)
     # R02.6 = R07.9: evaluator result buffers do not take the dtype of the coefficient array
     import rules.C07 as c07
     ctx.shared(c07.r07_9, 'R07.9', 'R02.6')
